@@ -6,21 +6,22 @@ ALLOWED_EXTERNALS = {'vf_cb', 'vf_select', 'vf_rank', 'vf_utility', 'vf_rng', 'v
 
 def cases(tier):
     L = []; fxs = []
-    fams = ['f5', 'foroot'] if tier == 'quick' else ['f5', 'foroot', 'f3w', 'fsel', 'fo8', 'f10']
+    fams = ['f5'] if tier == 'quick' else ['f5', 'foroot', 'f3w', 'fsel', 'fo8', 'f10']
     T = 1 if tier == 'quick' else 3
     for fam in fams:
-        o = dict(sublimit=2, features=['TRANSITION_HISTORY'], callbacks=['guard', 'life', 'update1', 'select'], act=['guard', 'update'], kinds=0x9e)
+        o = dict(sublimit=2, features=['TRANSITION_HISTORY'], callbacks=['guard', 'life', 'update1', 'select'], act=['update'] if tier == 'quick' else ['guard', 'update'], kinds=0x9e)
         fx = fixture('C11', fam, o); fxs.append(fx)
         nc = fx['T'].nc
         base = ['P_C11', 'GUARD_BAND', 'CB_KINDS=0x9e']
         kw = dict(checks='std', timeout=1200 * T, unwind_extra=[(r'^main\.', 1030)])
         # callbacks may issue MORE requests than the queue holds (no budget assumption beyond NC+2)
         L.append(fsm_case('C11', fx, 'update_burst', base + ['ENTRY=1', 'CB_BUDGET=%d' % (nc + 2)], witness=True, budget=nc, **kw))
-        L.append(fsm_case('C11', fx, 'imm1', base + ['ENTRY=2', 'KIND=1', 'CB_BUDGET=2'], witness=False, **kw))
-        L.append(fsm_case('C11', fx, 'imm4', base + ['ENTRY=2', 'KIND=4', 'CB_BUDGET=1'], witness=False, **kw))
+        if tier == 'thorough':
+            L.append(fsm_case('C11', fx, 'imm1', base + ['ENTRY=2', 'KIND=1', 'CB_BUDGET=2'], witness=False, **kw))
+            L.append(fsm_case('C11', fx, 'imm4', base + ['ENTRY=2', 'KIND=4', 'CB_BUDGET=1'], witness=False, **kw))
         # external burst beyond the queue capacity, then update()
         L.append(fsm_case('C11', fx, 'queue_overflow', base + ['ENTRY=3', 'NREQ=%d' % (nc + 2), 'EXT_KINDS=0x9e', 'CB_BUDGET=0'], witness=True, nreq=nc, **kw))
-        L.append(fsm_case('C11', fx, 'reset', base + ['ENTRY=4', 'CB_BUDGET=0'], witness=False, **kw))
+        if tier == 'thorough': L.append(fsm_case('C11', fx, 'reset', base + ['ENTRY=4', 'CB_BUDGET=0'], witness=False, **kw))
         # replayTransitions() with histories of any length up to 15 (capacity is NC*LIMIT)
         L.append(fsm_case('C11', fx, 'replay_overlong', base + ['ENTRY=13', 'EXT_KINDS=0x9e', 'CB_BUDGET=0'], witness=True,
                           **dict(kw, unwind_extra=[(r'^main\.', 1030), (r'vf_replay_many|replayTransitions|applyRequests', 18)])))
@@ -30,7 +31,7 @@ def cases(tier):
         fx = fixture('C11', fam, o, tag='assert'); fxs.append(fx)
         base = ['P_C11', 'CB_KINDS=0x9e']
         L.append(fsm_case('C11', fx, 'update', base + ['ENTRY=1', 'CB_BUDGET=2'], checks='none', timeout=1200 * T, witness=True))
-        for k in (1, 2, 3, 4):
+        for k in ((1,) if tier == 'quick' else (1, 2, 3, 4)):
             L.append(fsm_case('C11', fx, 'imm%d' % k, base + ['ENTRY=2', 'KIND=%d' % k, 'CB_BUDGET=2'], checks='none', timeout=1200 * T, witness=False))
         L.append(fsm_case('C11', fx, 'reset', base + ['ENTRY=4', 'CB_BUDGET=0'], checks='none', timeout=600 * T, witness=False))
     return L, fxs
